@@ -114,6 +114,19 @@ add("C15", "refmon", "exploration",
     "Buckets created through DataService.Create, the gRPC service and first-write auto-creation with column counts {1,2,255,256,1024,1025}, name lengths {1..300} (ASCII and multi-byte), all types, timeframes and both record types, then written (incl. first interval of the year, large 1D records) and restarted: the reported and enforced schema must equal the requested one, or the creation must have been rejected.",
     REF_NOTE + " Restart = fresh instance on the same root in the same process.", "schema round-trip monitor across a real reload", "DESIGN.md 4 C15")
 
+add("C19", "refmon", "exploration",
+    "Generated tables (several numeric column types, fixed and variable-length) and generated statements SELECT * FROM t WHERE c1 AND ... AND ck (k <= 4; <, <=, >, >=, =, BETWEEN; Epoch literals as datetime string / epoch seconds / epoch nanoseconds; literals on, between and outside stored values; two bounds on one column) run through the real parser and Materialize; result compared with a reference relational filter over the rows of the non-SQL query, in the column's own precision. Strata avoiding and aiming at each listed defect (F-SQL3/4/5).",
+    REF_NOTE + " Only statements inside the supported grammar are generated; an error for an unsupported construct is not a violation.", "executable reference filter vs. the real SQL path", "DESIGN.md 4 C19")
+add("C20", "refmon", "exploration",
+    "Generated select lists (ordered subsets, aliases incl. alias = another column's name), LIMIT n against the same statement without LIMIT, and INSERT INTO t SELECT ... into targets of equal and coarser timeframe (target read back through the non-SQL query, last-writer-wins per target interval).",
+    REF_NOTE, "relational reference (project / rename / head / insert) vs. the real SQL path", "DESIGN.md 4 C20")
+add("C24", "refmon", "exploration",
+    "The real aggregation trigger (destinations 5Min/15Min/1H/1D) is injected as plugins are and driven by the real background WAL loop; base-bar histories in order, out of order, with corrections, spanning windows, starting in earlier windows, and concurrent flush groups; after each request the monitor waits for the observed completion of the trigger and compares every destination bucket with the reference fold of the base bucket's current content.",
+    REF_NOTE + " UTC; 'all writes processed' is observed through a counting wrapper, not a sleep.", "reference fold vs. the real on-disk aggregation path", "DESIGN.md 4 C24")
+add("C25", "refmon", "exploration",
+    "The master's serialized transaction groups are captured at the point they would be sent and applied to a second instance with the real Replayer; histories over fixed and variable buckets of all timeframes, several buckets per group, groups mixing record types (produced through the public write path with the background loop); master and replica queries must agree (variable timestamps within one resolution step).",
+    REF_NOTE + " Transport is not exercised (C26).", "metamorphic comparison master vs. replica through the real replayer", "DESIGN.md 4 C25")
+
 ALL = [json.loads(l) for l in open(os.path.join(V, "properties.jsonl"))]
 
 def main():
